@@ -105,6 +105,63 @@ Definition f64_is_finite (bits : Z) : bool := negb ((bits / 2 ^ 52) mod 2048 =? 
 Definition f32_is_finite (bits : Z) : bool := negb ((bits / 2 ^ 23) mod 256 =? 255).
 Definition f64_is_nan (bits : Z) : bool := ((bits / 2 ^ 52) mod 2048 =? 2047) && negb (bits mod 2 ^ 52 =? 0).
 
+(* ---- specification of correct rounding, as a decidable test (independent of the algorithm fp_mag) ----
+   magnitude bits b of a format (p, emin) denote  val b = mant b * 2^(expo b);  the bit patterns are ordered as their values,
+   the pattern "infinity" standing for 2^(emax+1).  x = m * 10^e (m >= 0) rounds to b  iff  x lies between the midpoints to the
+   neighbouring patterns, a midpoint itself going to the pattern with even mantissa (= even bit pattern). *)
+Definition fp_mant (p : Z) (b : Z) : Z := let ex := b / 2 ^ (p - 1) in let fr := b mod 2 ^ (p - 1) in if ex =? 0 then fr else fr + 2 ^ (p - 1).
+Definition fp_expo (p emin : Z) (b : Z) : Z := let ex := b / 2 ^ (p - 1) in if ex =? 0 then emin else emin + ex - 1.
+
+(* compare m * 10^e with M * 2^K (m, M >= 0) *)
+Definition cmp_dec_dyadic (m e M K : Z) : comparison :=
+  let l := m * (if 0 <=? e then 10 ^ e else 1) * (if K <? 0 then 2 ^ (- K) else 1) in
+  let r := M * (if 0 <=? K then 2 ^ K else 1) * (if e <? 0 then 10 ^ (- e) else 1) in
+  l ?= r.
+
+(* midpoint between the values of patterns b and b+1, as M * 2^K *)
+Definition fp_mid (p emin : Z) (b : Z) : Z * Z :=
+  let m1 := fp_mant p b in let k1 := fp_expo p emin b in
+  let m2 := fp_mant p (b + 1) in let k2 := fp_expo p emin (b + 1) in
+  (* k1 <= k2 <= k1 + 1 *)
+  (m1 + m2 * 2 ^ (k2 - k1), k1 - 1).
+
+Definition fp_rounds_to (p emin : Z) (m e : Z) (b : Z) : bool :=
+  let inf := (2 * (2 - emin - p) + 1) * 2 ^ (p - 1) in
+  if (b <? 0) || (inf <? b) then false else
+  if m <=? 0 then b =? 0 else
+  if e + Z.log2 m / 3 + 1 <? (emin - p) / 3 - 8 then b =? 0 else
+  if (2 - emin) / 3 + 8 <? e then b =? inf else
+  let even := Z.even b in
+  let above_lower :=
+    if b =? 0 then true else
+    let '(M, K) := fp_mid p emin (b - 1) in
+    match cmp_dec_dyadic m e M K with Gt => true | Eq => even | Lt => false end in
+  let below_upper :=
+    if b =? inf then true else
+    let '(M, K) := fp_mid p emin b in
+    match cmp_dec_dyadic m e M K with Lt => true | Eq => even | Gt => false end in
+  above_lower && below_upper.
+
+Definition f64_rounds_to (d : bool * Z * Z) (bits : Z) : bool :=
+  let '(neg, m, e) := d in
+  Bool.eqb neg (2 ^ 63 <=? bits) && fp_rounds_to 53 (-1074) m e (bits mod 2 ^ 63).
+Definition f32_rounds_to (d : bool * Z * Z) (bits : Z) : bool :=
+  let '(neg, m, e) := d in
+  Bool.eqb neg (2 ^ 31 <=? bits) && fp_rounds_to 24 (-149) m e (bits mod 2 ^ 31).
+
 (* lexeme -> binary64 bits (None: not a number lexeme) *)
 Definition lex2f64 (l : list Z) : option Z := option_map dec2f64 (lex_decimal l).
 Definition lex2f32 (l : list Z) : option Z := option_map dec2f32 (lex_decimal l).
+
+(* the lexeme denotes, under round-to-nearest-even, exactly these bits: judged by the specification [f64_rounds_to] AND by the
+   algorithm [dec2f64] (a disagreement between the two is an alarm, never a silent acceptance) *)
+Definition lex_is_f64 (l : list Z) (bits : Z) : bool :=
+  match lex_decimal l with
+  | Some d => (dec2f64 d =? bits) && f64_rounds_to d bits
+  | None => false
+  end.
+Definition lex_is_f32 (l : list Z) (bits : Z) : bool :=
+  match lex_decimal l with
+  | Some d => (dec2f32 d =? bits) && f32_rounds_to d bits
+  | None => false
+  end.
